@@ -16,5 +16,12 @@ if os.path.exists(b):
 if not ok:
     print(log[-4000:])
     sys.exit(1)
+# ... and the race-detector build of the free-running harness (C08)
+b, ok, log = vlib.go_build("vstress", race=True)
+if os.path.exists(b):
+    os.remove(b)
+if not ok:
+    print(log[-4000:])
+    sys.exit(1)
 PY
 echo setup ok
